@@ -69,6 +69,14 @@ func H_func(fn, nargs, k1, k2, k3 int) {
 	case name == "augmentMap" && nargs == 2 && k1 == 8 && k2 == 8:
 		mm, ok := got.(data.Map)
 		verifAssert(err == nil && ok && len(mm) == 1 && sameValue(mm["k"], data.Int(1)), "C01: augmentMap")
+	case (name == "min" || name == "max") && nargs == 2 && (k1 == 3 || k1 == 4) && (k2 == 3 || k2 == 4) && (k1 == 4 || k2 == 4):
+		// a float operand: the IEEE minimum/maximum of both operands as floats (argument order kept)
+		fa, fb := c06Float(vals[0]), c06Float(vals[1])
+		want := data.Float(math.Min(fa, fb))
+		if name == "max" {
+			want = data.Float(math.Max(fa, fb))
+		}
+		verifAssert(err == nil && sameValue(got, want), "C01: min/max with a float operand")
 	case (name == "min" || name == "max") && nargs == 2:
 		a, aok := isInt(0)
 		b, bok := isInt(1)
@@ -96,6 +104,10 @@ func H_func(fn, nargs, k1, k2, k3 int) {
 			r, isI := got.(data.Int)
 			verifAssert(err == nil && isI && int64(r) >= 0 && int64(r) < a, "C01: randomInt out of range")
 		}
+	case name == "strContains" && nargs == 2 && k1 == 6 && k2 == 5:
+		verifAssert(err == nil && sameValue(got, data.Bool(false)), "C01: strContains: the empty string contains no 1-byte string")
+	case name == "strContains" && nargs == 2 && k1 == 5 && k2 == 6:
+		verifAssert(err == nil && sameValue(got, data.Bool(true)), "C01: strContains: every string contains the empty string")
 	case name == "strContains" && nargs == 2 && k1 == 5 && k2 == 5:
 		verifAssert(err == nil && sameValue(got, data.Bool(vals[0].(data.String) == vals[1].(data.String))), "C01: strContains on 1-byte strings")
 	case name == "range":
@@ -121,6 +133,31 @@ func H_func(fn, nargs, k1, k2, k3 int) {
 			verifAssert(len(l) == n, "C01: range length")
 		}
 	}
+}
+
+func c06Float(v data.Value) float64 {
+	switch x := v.(type) {
+	case data.Int:
+		return float64(x)
+	case data.Float:
+		return float64(x)
+	}
+	return 0
+}
+
+// H_strContains: strContains(h, n) for a haystack of hn and a needle of nn symbolic bytes against
+// the naive substring search.
+func H_strContains(hn, nn int) {
+	h, n := verifString(hn), verifString(nn)
+	m := data.Map{"h": data.String(h), "n": data.String(n)}
+	got, err := evalWith(&ast.FunctionNode{Name: "strContains", Args: []ast.Node{&ast.DataRefNode{Key: "h"}, &ast.DataRefNode{Key: "n"}}}, m)
+	want := false
+	for i := 0; i+len(n) <= len(h); i++ {
+		if h[i:i+len(n)] == n {
+			want = true
+		}
+	}
+	verifAssert(err == nil && sameValue(got, data.Bool(want)), "C01: strContains is not substring containment")
 }
 
 // H_evalExpr: EvalExpr (no template context) on expressions that fail and that succeed.
